@@ -284,7 +284,7 @@ func (m *mapOrder) conclude(fd *ast.FuncDecl, fname string, info *types.Info, de
 			continue
 		}
 		// append to a function-local slice that is totally sorted before any other use
-		if e.Kind == effAppend && !e.Indexed && e.Target != nil && m.sortedAfter(fd, info, e.Target, end) {
+		if e.Kind == effAppend && !e.Indexed && e.Target != nil && m.sortedAfter(fd, info, e.Target, end, keys) {
 			continue
 		}
 		sensitive = append(sensitive, e)
@@ -461,7 +461,7 @@ func declReachable(reach map[string]bool, fname string) bool {
 
 // sortedAfter: obj is a slice variable local to fd; after position `after` the first
 // statement mentioning it is a total sort of exactly that variable.
-func (m *mapOrder) sortedAfter(fd *ast.FuncDecl, info *types.Info, obj types.Object, after token.Pos) bool {
+func (m *mapOrder) sortedAfter(fd *ast.FuncDecl, info *types.Info, obj types.Object, after token.Pos, keys map[types.Object]bool) bool {
 	if obj.Pos() < fd.Pos() || obj.Pos() > fd.End() {
 		return false // not local to this function
 	}
@@ -477,6 +477,14 @@ func (m *mapOrder) sortedAfter(fd *ast.FuncDecl, info *types.Info, obj types.Obj
 			if totalSorts[q] && len(call.Args) == 1 {
 				if id, ok := ast.Unparen(call.Args[0]).(*ast.Ident); ok && info.Uses[id] == obj {
 					sortCalls = append(sortCalls, call)
+				}
+			}
+			// sort.Slice(x, func(i, j int) bool { return x[i].F < x[j].F }) where F holds this loop's (unique) key
+			if (q == "sort.Slice" || q == "sort.SliceStable" || q == "slices.SortFunc" || q == "slices.SortStableFunc") && len(call.Args) == 2 {
+				if id, ok := ast.Unparen(call.Args[0]).(*ast.Ident); ok && info.Uses[id] == obj {
+					if f, ok := singleKeyComparator(info, call.Args[1], obj); ok && appendsCarryKey(fd, info, obj, f, after, keys) {
+						sortCalls = append(sortCalls, call)
+					}
 				}
 			}
 			// sort.Sort(sort.StringSlice(x)) / sort.Sort(sort.Reverse(sort.StringSlice(x)))
@@ -1073,4 +1081,181 @@ func isParamOf(sig *types.Signature, v *types.Var) bool {
 		}
 	}
 	return false
+}
+
+// singleKeyComparator: less is `func(i, j int) bool { return conv(x[i].F) < conv(x[j].F) }` (or > , or a
+// cmp.Compare / strings.Compare of a.F and b.F for the slices package): the order is decided by field F alone.
+// Returns F ("" when the elements themselves are compared).
+func singleKeyComparator(info *types.Info, less ast.Expr, obj types.Object) (string, bool) {
+	fl, ok := ast.Unparen(less).(*ast.FuncLit)
+	if !ok || len(fl.Body.List) != 1 || fl.Type.Params == nil {
+		return "", false
+	}
+	var ps []types.Object
+	for _, f := range fl.Type.Params.List {
+		for _, n := range f.Names {
+			ps = append(ps, info.Defs[n])
+		}
+	}
+	ret, ok := fl.Body.List[0].(*ast.ReturnStmt)
+	if !ok || len(ret.Results) != 1 || len(ps) != 2 {
+		return "", false
+	}
+	// side(e) = (parameter index, field) of `conv(x[p].F)` / `conv(p.F)`
+	side := func(e ast.Expr) (int, string, bool) {
+		e = ast.Unparen(e)
+		for {
+			call, ok := e.(*ast.CallExpr)
+			if !ok || len(call.Args) != 1 {
+				break
+			}
+			if tv, ok := info.Types[call.Fun]; !ok || !tv.IsType() {
+				break
+			}
+			e = ast.Unparen(call.Args[0])
+		}
+		field := ""
+		if se, ok := e.(*ast.SelectorExpr); ok {
+			field = se.Sel.Name
+			e = ast.Unparen(se.X)
+		}
+		if ix, ok := e.(*ast.IndexExpr); ok {
+			if id, ok := ast.Unparen(ix.X).(*ast.Ident); ok && info.Uses[id] == obj {
+				if pid, ok := ast.Unparen(ix.Index).(*ast.Ident); ok {
+					for i, p := range ps {
+						if info.Uses[pid] == p {
+							return i, field, true
+						}
+					}
+				}
+			}
+			return 0, "", false
+		}
+		if id, ok := e.(*ast.Ident); ok {
+			for i, p := range ps {
+				if info.Uses[id] == p {
+					return i, field, true
+				}
+			}
+		}
+		return 0, "", false
+	}
+	var a, b ast.Expr
+	switch x := ast.Unparen(ret.Results[0]).(type) {
+	case *ast.BinaryExpr:
+		if x.Op != token.LSS && x.Op != token.GTR {
+			return "", false
+		}
+		a, b = x.X, x.Y
+	case *ast.CallExpr:
+		q := qualName(calleeOf(info, x))
+		if (q != "cmp.Compare" && q != "strings.Compare") || len(x.Args) != 2 {
+			return "", false
+		}
+		a, b = x.Args[0], x.Args[1]
+	default:
+		return "", false
+	}
+	ia, fa, okA := side(a)
+	ib, fb, okB := side(b)
+	if !okA || !okB || ia == ib || fa != fb {
+		return "", false
+	}
+	return fa, true
+}
+
+// appendsCarryKey: every append to obj before `after` adds an element whose field F (or the element itself when
+// F is "") is this loop's key - so no two elements compare equal and the comparator sort is total.
+func appendsCarryKey(fd *ast.FuncDecl, info *types.Info, obj types.Object, field string, after token.Pos, keys map[types.Object]bool) bool {
+	fromKey := func(e ast.Expr) bool {
+		id := innermostIdentOrAssert(info, e)
+		if id == nil {
+			return false
+		}
+		o := info.Uses[id]
+		if keys[o] {
+			return true
+		}
+		// `k, ok := key.(T)` / `k := T(key)`
+		derived := false
+		ast.Inspect(fd.Body, func(n ast.Node) bool {
+			as, ok := n.(*ast.AssignStmt)
+			if !ok || len(as.Rhs) != 1 || len(as.Lhs) == 0 {
+				return true
+			}
+			if l, ok := as.Lhs[0].(*ast.Ident); ok && (info.Defs[l] == o || info.Uses[l] == o) && o != nil {
+				if kid := innermostIdentOrAssert(info, as.Rhs[0]); kid != nil && keys[info.Uses[kid]] {
+					derived = true
+				}
+			}
+			return true
+		})
+		return derived
+	}
+	n, all := 0, true
+	ast.Inspect(fd.Body, func(x ast.Node) bool {
+		as, ok := x.(*ast.AssignStmt)
+		if !ok || as.Pos() > after || len(as.Lhs) != 1 || len(as.Rhs) != 1 {
+			return true
+		}
+		l, ok := ast.Unparen(as.Lhs[0]).(*ast.Ident)
+		if !ok || (info.Uses[l] != obj && info.Defs[l] != obj) {
+			return true
+		}
+		call, ok := ast.Unparen(as.Rhs[0]).(*ast.CallExpr)
+		if !ok || identOf(call.Fun).Name != "append" || call.Ellipsis.IsValid() {
+			return true
+		}
+		for _, arg := range call.Args[1:] {
+			n++
+			if field == "" {
+				if !fromKey(arg) {
+					all = false
+				}
+				continue
+			}
+			cl, ok := ast.Unparen(arg).(*ast.CompositeLit)
+			if !ok {
+				all = false
+				continue
+			}
+			found := false
+			st, _ := info.TypeOf(cl).Underlying().(*types.Struct)
+			for i, el := range cl.Elts {
+				if kv, ok := el.(*ast.KeyValueExpr); ok {
+					if identOf(kv.Key).Name == field && fromKey(kv.Value) {
+						found = true
+					}
+				} else if st != nil && i < st.NumFields() && st.Field(i).Name() == field && fromKey(el) {
+					found = true
+				}
+			}
+			if !found {
+				all = false
+			}
+		}
+		return true
+	})
+	return n > 0 && all
+}
+
+func innermostIdentOrAssert(info *types.Info, e ast.Expr) *ast.Ident {
+	for {
+		switch x := ast.Unparen(e).(type) {
+		case *ast.CallExpr:
+			if len(x.Args) != 1 {
+				return nil
+			}
+			if tv, ok := info.Types[x.Fun]; !ok || !tv.IsType() {
+				return nil // only conversions keep the key's identity
+			}
+			e = x.Args[0]
+		case *ast.TypeAssertExpr:
+			e = x.X
+		case *ast.Ident:
+			return x
+		default:
+			return nil
+		}
+	}
 }
